@@ -796,3 +796,20 @@ func init() {
 	mutant("body-length-counts-the-padding", "message-consistency", "serverConn.go", "		strm.recvBody += len(data)", "		strm.recvBody += fr.Len()")
 	mutant("timed-out-stream-closed-before-its-reset", "late-frames-on-reset-streams", "serverConn.go", "				sc.resetStream(strm, StreamCanceled)\n\n				// set the state to closed in case it comes back to life later\n				strm.SetState(StreamStateClosed)\n				closeStream(strm)\n", "				// set the state to closed in case it comes back to life later\n				strm.SetState(StreamStateClosed)\n				closeStream(strm)\n\n				sc.resetStream(strm, StreamCanceled)\n")
 }
+
+func init() {
+	mutant("goaway-reference-moves-only-once", "client-goaway-drain", "conn.go", "			} else {\n				// wait for the streams to complete\n				c.closeRef = ga.stream", "			} else if c.state != connStateClosed {\n				// wait for the streams to complete\n				c.closeRef = ga.stream")
+	mutant("pending-write-error-keeps-the-ctx", "ctx-acquire-released", "conn.go", "		err := c.flushData(id, body, end)\n", "		err := c.flushData(id, body, end)\n		if err != nil {\n			return err\n		}\n")
+	mutant("dropped-response-ignores-running-handler", "request-ctx-handoff", "serverConn.go", "	if strm.handlerRunning || strm.ctx == nil {\n		return\n	}\n\n	sc.closeBodyStream(strm)", "	if strm.ctx == nil {\n		return\n	}\n\n	sc.closeBodyStream(strm)")
+	allMutants = append(allMutants, Mutant{Name: "protocol-set-after-handler-started", Rule: "request-ctx-handoff", Subs: []Subst{
+		{File: "serverConn.go", Old: "	ctx.Request.Header.SetProtocolBytes(StringHTTP2)\n\n	strm.handlerRunning = true", New: "	strm.handlerRunning = true"},
+		{File: "serverConn.go", Old: "		sc.h(ctx)\n	}()\n}", New: "		sc.h(ctx)\n	}()\n\n	ctx.Request.Header.SetProtocolBytes(StringHTTP2)\n}"},
+	}})
+	mutant("data-appended-to-a-finished-request", "request-ctx-handoff", "serverConn.go", "		if strm.State() >= StreamStateHalfClosed {\n			return NewGoAwayError(StreamClosedError, \"stream closed\")\n		}\n\n		data := fr.Body().(*Data).Data()", "		data := fr.Body().(*Data).Data()")
+	mutant("read-error-frame-released", "frame-with-error-untouched", "conn.go", "		fr, err := c.readNext()\n		if err != nil {\n			c.setLastErr(err)\n", "		fr, err := c.readNext()\n		if err != nil {\n			c.setLastErr(err)\n			ReleaseFrameHeader(fr)\n")
+	mutant("handshake-frame-read-before-error-test", "frame-with-error-untouched", "conn.go", "err == nil && fr.Type() != FrameSettings {", "fr.Type() != FrameSettings && err == nil {")
+	allMutants = append(allMutants, Mutant{Name: "body-compared-before-counted", Rule: "buffer-append-bounded", Subs: []Subst{
+		{File: "serverConn.go", Old: "		strm.recvBody += len(data)\n\n		// Accounted", New: "		// Accounted"},
+		{File: "serverConn.go", Old: "		strm.ctx.Request.AppendBody(data)", New: "		strm.recvBody += len(data)\n		strm.ctx.Request.AppendBody(data)"},
+	}})
+}
